@@ -33,7 +33,7 @@ def ask_tables(v):
     TA = [
         ('action-name-serialisation', 'D(unit enum serialises)', lambda e: is_unit_enum_serialisation(e)),
         ('zero-amount-marker-transfer', 'D(I1: open ask has size > 0; supplied size >= 1; I2)', lambda e: is_generic_err_unwrap(e)),
-        ('increment-zero', 'D(K: size_increment >= 1)', lambda e: ab(e, 'assert') and 'size_increment' in e['key']),
+        ('increment-zero', 'D(K: size_increment >= 1)', lambda e: is_increment_zero(e)),
     ]
     return T, TA
 
@@ -66,7 +66,7 @@ def bid_tables(v):
     TA = [
         ('action-name-serialisation', 'D(unit enum serialises)', lambda e: is_unit_enum_serialisation(e)),
         ('zero-amount-marker-transfer', 'D(I3, I6: remaining > 0 and price > 0)', lambda e: is_generic_err_unwrap(e)),
-        ('increment-zero', 'D(K: size_increment >= 1)', lambda e: ab(e, 'assert') and 'size_increment' in e['key']),
+        ('increment-zero', 'D(K: size_increment >= 1)', lambda e: is_increment_zero(e)),
         ('remaining-amounts', 'D(I3: accumulators <= totals)', lambda e: ab(e, 'uint_Sub') and e['abort'][1] in (bs.B, bs.Q, bs.Ft)),
         ('remaining-quote-after', 'D(I4, L-fit)', lambda e: ab(e, 'uint_Sub') and e['abort'][1] == bs.remQ),
         ('stored-price-unparsable', 'D(I6)', lambda e: ab(e, 'unwrap') and e['abort'][1] == ('rcall', 'from_str', (F(BID, 'price'),))),
